@@ -6,6 +6,7 @@ package gen
 import (
 	"fmt"
 	"math/rand"
+	"sort"
 )
 
 // IG is a graph over integer node ids 0..N-1 (not all ids need to be used by an edge).
@@ -353,6 +354,52 @@ func Slack(r *rand.Rand) IG {
 	}
 	shuffleEdges(r, out)
 	return IG{n, out, "F12-slack"}
+}
+
+// Hub is family F13: a chain plus a hub node with 25-50 out-edges (distinct children that feed chain nodes, and
+// parallel edges straight into chain nodes). A pivot of the network simplex then has dozens of candidate entering
+// edges with different slacks; the hub has to move as a whole.
+func Hub(r *rand.Rand) IG {
+	l := 5 + r.Intn(6)
+	var e [][2]int
+	for i := 0; i+1 < l; i++ {
+		e = append(e, [2]int{i, i + 1})
+	}
+	hub := l
+	n := l + 1
+	attach := r.Intn(2)
+	e = append(e, [2]int{attach, hub})
+	m := 31 + r.Intn(30)
+	// targets at least two layers below the hub's initial layer: every hub edge has slack, so the hub can (and has to) move
+	first := attach + 3
+	type out struct {
+		es    [][2]int
+		depth int
+	}
+	var outs []out
+	for k := 0; k < m; k++ {
+		t := first + r.Intn(l-first)
+		if r.Intn(10) < 7 {
+			outs = append(outs, out{[][2]int{{hub, t}}, t}) // straight into the chain, possibly parallel
+		} else {
+			outs = append(outs, out{[][2]int{{hub, n}, {n, t}}, t})
+			n++
+		}
+	}
+	switch r.Intn(3) {
+	case 0:
+		// deepest targets first: the edge with the smallest slack comes after dozens of edges with a larger one
+		sort.SliceStable(outs, func(i, j int) bool { return outs[i].depth > outs[j].depth })
+	case 1:
+		sort.SliceStable(outs, func(i, j int) bool { return outs[i].depth < outs[j].depth })
+	}
+	for _, o := range outs {
+		e = append(e, o.es...)
+	}
+	if r.Intn(4) == 0 {
+		shuffleEdges(r, e)
+	}
+	return IG{n, e, "F13-hub"}
 }
 
 // Coincidence is family F11: structures aimed at the mechanisms named in the properties.
